@@ -9,11 +9,12 @@ CONFIG = dict(
     level="proof",
     rule=("boundary repair: domains [-1,1), [0,10), [-5,-2), [1e-3,1e6); every operator (Saturation, Toroidal, Mirror, "
           "CompleteOneTailedNormalCorrection) through the real Component::execute on a State holding a population stack of a "
-          "LimitedVectorProblem, applied twice; (1) one coordinate per case for every point of the bound "
+          "LimitedVectorProblem in which every other individual carries an objective value (a solution is repaired whether or not it has been "
+          "evaluated), applied twice; (1) one coordinate per case for every point of the bound "
           "neighbourhood {a, b, next_up/next_down of each} and of the grid {a - k*d, b + k*d : k in 0.25,0.5,1,1.5,2,7,1e3,1e6} "
           "(the resampling operator with 6 quick / 48 thorough seeds each); (2) seeded populations of 1..3 individuals of "
           "dimension 1..4 whose coordinates are all of one kind (bound / grid / random up to 1e3 widths away / inside); (2b) the same "
-          "on problems whose range DIFFERS per dimension ([0,1)x[10,20)x[-5,-4), ...), every coordinate judged against its own range; (3) huge "
+          "on problems whose range DIFFERS per dimension ([0,1)x[10,20)x[-5,-4), ..., incl. domains whose first and last range coincide while inner ones differ, and repeated ranges), every coordinate judged against its own range; (3) huge "
           "finite coordinates (+-1e17, +-1e300, +-f64::MAX, 1e22, 2^53+1, ...) and the neighbourhood of Mirror's fold (the thresholds a-d, b+d and "
           "their floating-point neighbours; whole periods 2kd from either bound, k up to 1e6, and their neighbours; remainders near 0, d, 2d), "
           "alone and inside populations over per-dimension different ranges - ordinary cases: every operator must return, in bounds; (3b) dimensions "
